@@ -408,10 +408,12 @@ class Session:
         if warm == "re":
             rec.count("evals_shared_cross_warm")      # built through THIS handle before the edit made through the other one
             rec.count("evals_shared_cross_warm:" + r)
-        if self.reg is not self.editor_of(symbols).reg:
+        ed = self.editor_of(symbols)
+        if self.reg is not ed.reg:
             rec.count("evals_shared_cross_distinct_objects")
-        rec.reach(f"shared|{self.how}|{r}|{what}")
-        rec.ok(("shared", self.how, r, self.edit_of(symbols)[0], what + ":" + pclass, warm))
+        how = self.how if self.role == "copy" else ed.how       # the way the copy involved was obtained
+        rec.reach(f"shared|{how}|{r}|{what}")
+        rec.ok(("shared", how, r, self.edit_of(symbols)[0], what + ":" + pclass, warm))
 
     # ---- what the model expects
     def aspec(self, u, other):
@@ -550,7 +552,7 @@ class Session:
                 rec.note("unit_system_id-raised:" + type(e).__name__)
                 return
             if warm == cold:
-                rec.ok(("shared", self.how, r, self.last_kind, "system-id"))
+                rec.ok(("shared", self.how if self.role == "copy" else editor.how, r, self.last_kind, "system-id"))
             else:
                 # one mechanism whatever the edit kind (the memo lives in the registry object, the table does not)
                 rec.violation(f"C12:stale-unit_system_id:shared-table:{r}",
@@ -881,7 +883,7 @@ class Session:
         for r in self.retained:
             if sf:
                 rec.count("evals_shared_retained")
-                rec.reach(f"shared|{self.how}|{sf[14:]}|retained")
+                rec.reach(f"shared|{self.how if self.role == 'copy' else self.editor_of((op[1],)).how}|{sf[14:]}|retained")
             x = r["obj"]
             case = {"retained": r["kind"], "string": r["string"], "created_at_version": r["version"], "op": op, "prov": self.prov,
                     "log": model.log[-12:]}
@@ -908,7 +910,9 @@ class Session:
                 else:
                     rec.ok(("retained", kind, r["kind"], "to-base"))
             except Exception as e:
-                rec.violation(f"C12:{kind}:retained-value:{r['kind']}:to-base-raises" + sf, f"array in {r['string']} built before {op}: .to({r['base']!r}) now raises {type(e).__name__}: {e}", case)
+                # (no handle suffix: an exception here comes from re-reading the unit's atoms against the table itself, which is
+                # the same through every handle - one mechanism whichever handle made the edit)
+                rec.violation(f"C12:{kind}:retained-value:{r['kind']}:to-base-raises", f"array in {r['string']} built before {op}: .to({r['base']!r}) now raises {type(e).__name__}: {e}", case)
             # conversion to the creating string under the *current* contents
             try:
                 if self.has_offset(model.evaluate(r["string"]).symbols):
